@@ -3,6 +3,7 @@ package props
 import (
 	"bytes"
 	"fmt"
+	"hash/fnv"
 
 	"free5gclib/milenage"
 	"mc/refcrypto"
@@ -70,7 +71,7 @@ func c15funcs(r *report.Report, l *report.Local, in c15in) {
 	}
 	cmp := func(name string, got, want []byte) {
 		if !bytes.Equal(got, want) {
-			r.Violate(name+"/value", in.String(), fmt.Sprintf("got %x want %x", got, want), nil)
+			r.Violate(name+"/value"+c15keyTag, in.String(), fmt.Sprintf("got %x want %x", got, want), nil)
 		}
 	}
 	cmp("f1", macA, m.MACA)
@@ -213,8 +214,14 @@ func c15autsCorrupt(r *report.Report, l *report.Local, in c15in, opc, auts []byt
 	}
 }
 
+// c15keyTag is appended to the finding keys of c15funcs (set only in the sequential caller-reuses-its-buffers pass).
+var c15keyTag string
+
 func runC15(ctx *Ctx) {
 	r := ctx.R
+	if ctx.Isolate() {
+		return
+	}
 	if err := refcrypto.SelfTest(); err != nil {
 		r.HarnessError(err.Error())
 		return
@@ -227,7 +234,7 @@ func runC15(ctx *Ctx) {
 	sqn0, amf0 := hx("ff9bb4d0b607"), hx("b9b9")
 	r.Rule = fmt.Sprintf("f1..f5*/OPc/AUTN: one-at-a-time sweeps of K, OP, RAND over {35.207 set 1, zero, ones, counting, %d one-hot} with the others at 3 bases, AMF all 65536, SQN alphabet; "+
 		"Milenage_check: full product of 8x8 (network SQN, UE SQN) x 3 (K,OP,RAND) triples x AMF{0000,8000,b9b9,ffff}; for every valid AUTN every single-bit (128) and single-octet (16x255) corruption; same for AUTS (112 bits, 14x255); "+
-		"oracle: refcrypto verdict (accept iff MAC-A right and SQN greater; stale SQN -> AUTS that verifies and yields the UE SQN); non-trivial = all (distinct case strings hashed)", onehot)
+		"every f1..f5* case also in one sequential history in which the caller overwrites one buffer per argument in place; oracle: refcrypto verdict (accept iff MAC-A right and SQN greater; stale SQN -> AUTS that verifies and yields the UE SQN); non-trivial = all (distinct case strings hashed)", onehot)
 	r.Assume("refcrypto Milenage anchored on all eight values of TS 35.207 test set 1", "128-bit values outside the structured alphabet are not enumerated")
 	ks, ops, rands := vec128(k0, onehot), vec128(op0, onehot), vec128(rand0, onehot)
 	var ins []c15in
@@ -253,8 +260,37 @@ func runC15(ctx *Ctx) {
 	for b := 0; b < 48; b++ {
 		ins = append(ins, c15in{k0, op0, rand0, sqn6(1 << uint(b)), amf0})
 	}
+	{
+		h := fnv.New64a()
+		for _, in := range ins {
+			h.Write([]byte(in.String()))
+		}
+		r.Consistent("input list", fmt.Sprintf("%d inputs, hash %x", len(ins), h.Sum64()))
+	}
 	ParallelFor(r, len(ins), func(l *report.Local, i int) { c15funcs(r, l, ins[i]) })
 	r.Sample("funcs " + ins[0].String())
+	if ctx.Lead() {
+		// the same inputs again, one after the other, with the caller keeping ONE buffer per argument and overwriting it in
+		// place for every call (hex.Decode into a reused slice, InsertData): results must not depend on the identity of the
+		// argument slices or on what they held during earlier calls
+		bk, bop, brand, bsqn, bamf := make([]byte, 16), make([]byte, 16), make([]byte, 16), make([]byte, 6), make([]byte, 2)
+		lr := r.Local()
+		c15keyTag = "/caller-reuses-buffers"
+		for i, in := range ins {
+			if i%7 != 0 && i > 1200 { // every sweep entry, and every 7th of the long AMF run
+				continue
+			}
+			copy(bk, in.k)
+			copy(bop, in.op)
+			copy(brand, in.rand)
+			copy(bsqn, in.sqn)
+			copy(bamf, in.amf)
+			c15funcs(r, lr, c15in{bk, bop, brand, bsqn, bamf})
+		}
+		c15keyTag = ""
+		lr.Merge()
+		r.Sample("reused buffers: funcs(K1,..) then the same K slice overwritten with K2, funcs(K2,..) ...")
+	}
 
 	// Milenage_check over SQN pairs and corruptions
 	type job struct {
